@@ -268,6 +268,14 @@ _T = {
          "field values are abstract tokens (identity + type): a plumbing proof; types.CodeType is an external constructor modelled by its positional order; a frame condition (no attribute added to the portable object) is part of the contract."),
  "C19": ("The two lnotab encoders behind freeze() - Code3.encode_lineno_tab (3.0-3.9, for the unsigned reader of 3.0-3.5 and the signed reader of 3.6-3.9, with and without decreasing lines) and Code15.encode_lineno_tab (1.5-2.7) - are proved with loop invariants for every table of strictly increasing offsets starting at 0 whose consecutive lines differ, every first line, every gap size: the byte string under construction is tracked through a ghost transcription of CPython's lnotab reader (pyvc HAcc); every appended pair is two bytes in 0..255, whenever the reader would yield a line start it is exactly the previous table entry, after entry k it has yielded k pairs and stands at (offset_k, line_k). The 3.10 encoder (nested emitter, range format) and freeze()'s dict/list normalisation are covered only by the bounded round trip through xdis's and the matching CPython's decoders (2.7, 3.7-3.10).",
          "the ghost reader is a transcription of dis.findlinestarts (<= 3.9, without the 3.8+ end-of-code cut) - trusted, cross-checked by the bounded round trip through the real CPythons; duplicate consecutive lines and equal offsets are outside the proved domain (a dict has distinct offsets; the reader itself drops duplicate lines); unsigned tables: lines must not decrease (the encoder skips such entries by design); Code310 encoder: bounded only."),
+ "C11": ("Exception escape is proved for load_module_from_file_object: for the magic word of every final release, every PyPy magic of the corpus, every other magic in xdis's own tables, the dropbox magics and unknown words, for all file contents of at least 50 bytes (what load_module guarantees) and whatever the code readers do - each external reader may raise an exception of unknown class at its call - the function returns a 7-tuple (or the dropbox decoder's result) or raises ImportError, and closes nothing twice; a frame obligation per function reachable from load_module (151, over an over-approximated call graph) shows no exec/eval/compile/dynamic import/file-system write primitive. Termination, memory and the unmarshaller's own behaviour on corrupt data are covered by a bounded hostile-input sweep (prefixes, byte flips, insertions, adversarial lengths and references, deep nesting, every magic word) under time and address-space limits with CPython audit hooks.",
+         "KeyboardInterrupt/SystemExit not modelled; load_module's size check and open() are assumed to see the same file (no race); RecursionError raised inside the readers is converted to ImportError like any other exception (counts as failing cleanly); static frame analysis recognises primitives by spelling; the unmarshaller's termination on hostile input is bounded evidence only."),
+ "C18": ("History independence is decided as a frame condition: for each of the 235 functions reachable from the public operations (load_module, disassemble_file, get_opcode / get_opcode_module, make_std_api, marsh dump(s)/load(s), load_code, Bytecode, the label and line-start finders) one obligation shows that its body writes no module-level or class-level container, no mutable default argument (also not by letting it escape into an attribute), keeps no memo (@lru_cache) and patches no table except by save/restore in a finally block; remap_opcodes is the documented exception. Writes through aliases (a module's table stored in an instance attribute and mutated there) are outside the static check and are covered by the bounded history replay: a 97-operation catalogue, each operation alone in a fresh interpreter vs inside random sequences, with digests of every process-wide container before and after each operation.",
+         "call graph over-approximated by name (see frames.ASSUMPTIONS); import-time table construction (init_opdata, fields2copy) is not reachable from the public operations and is not checked; aliasing: bounded evidence only."),
+ "C12": ("Only the 'clean' clause is decided deductively: a frame obligation for each of the 228 functions reachable from disassemble_file / pydisasm's main shows that its body has no print() without file=, no print(file=sys.stdout) and no sys.stdout.write (the listing goes to the stream it was given). Totality over the six formats and faithfulness of the classic/bytes listings to the instruction stream (each non-CACHE instruction once, in order, offset, name, operand, '>>' iff jump target, line number iff it starts a line) are checked on the corpus (2 files per version directory quick, all 260+ thorough): bounded.",
+         "the per-instruction formatter (string formatting) and the listing loop are outside pyvc's modelled subset (opaque text): bounded evidence only; the instruction stream itself is the subject of C02-C05/C20; two recorded known findings (1.5-2.0 lnotab lines, xasm on PyPy 3.2)."),
+ "C07": ("Deductive part: for every expression that reads a host constant (PYTHON_VERSION_TRIPLE, PYTHON3, IS_PYPY, PYTHON_MAGIC_INT, sys.version_info) in a function reachable from the decoding entry points, partial evaluation with the constants of each installed host 3.8-3.13 leaves the same residual expression - the code cannot branch differently on another host - or the expression is one of ten listed switches (fast-path test, default arguments that pick the host's own code type, the host's dis format, the banner) whose two sides are proved equal by C01/C10 (portable reader = format) and C16 (native -> portable field-exact per host). Everything the argument does not reach (text formatting, the host's marshal) is a bounded differential: 43 (quick) / 130+ (thorough) files of versions 2.7-3.13 decoded and listed under each of the six hosts, each 3.8-3.13 file on the native fast path on one host and through xdis's unmarshaller on the others and, on the native host, a second time through xdis's unmarshaller; compared modulo object addresses and the banner.",
+         "the composition of C01/C10/C16 into 'both loader paths agree' is an argument in DESIGN.md section 10.5, not a machine-checked lemma; the host's marshal.loads is trusted; hosts are the six installed interpreters; static analysis assumptions of ground/frames.py; two recorded cosmetic known findings (code-object repr, set element order)."),
  "C14": ("The integer paths of xdis.marsh are proved for every int of any size: w_long/w_short/w_long64 append exactly the little-endian words that read back (two's complement) to the value; dump_int picks 'i'/'I' by range; dump_long writes 'l', the signed digit count and the 15-bit digits of |x| (loop invariants over a positional-notation spec with an induction lemma: the digits sum back to |x|, top digit non-zero, all digits < 2**15); the fast reader's _r_short/_r_long/_r_long64 are proved to decode the same words. Text, float, complex and container writers/readers are compared with the marshal of hosts 3.8-3.13 by a bounded differential in both directions.",
          "the byte sink is a ghost sequence of everything written through self._write; chr()/str concatenation modelled for code points < 256; load_long's accumulation (x | d << 15 i with symbolic shift) and all non-integer paths are bounded only; bytes-assembly in dumps() is bounded only."),
  "C13": ("write_bytecode_file is proved, for the magic of every final CPython release 1.3-3.13 and all timestamps/source sizes, to write exactly the header that the C06-verified reader decodes back to the same (magic, flags 0, timestamp, size), followed by the marshaller's bytes and nothing else, to the path given, and to close the file; out-of-range header words raise. _Marshaller.dump_code3 is proved to emit the fields of a 3.0-3.10 code object in the order and width of the layout the reader t_code is verified against (C01), and to refuse 3.11+ objects; w_long/w_short/dump_long as in C14. Whether the rewritten file is the same program is judged by the target interpreters (2.7, 3.6-3.13) and by xdis re-reading it, on 13 programs per version: bounded.",
